@@ -1,6 +1,6 @@
 """C05 - PIN blocks have exactly the ISO 9564-1 layout."""
 from harness import core, oracles as o, framework as fw
-from harness.props.pinblock_common import rnd_digits, call, unmask
+from harness.props.pinblock_common import rnd_digits, call, unmask, biased_entropy
 from psec import pinblock
 
 
@@ -76,6 +76,10 @@ def run(ctx):
             bad("format 4 PAN field layout", {"fn": "pan_field_4", "args": [pan4]}, exp.hex(), repr(g))
         lines.append(core.model_line("encode_pan_field_iso_4", (pan4,)))
         expect.append("OK " + core.show(exp))
+    bv, bcalls = biased_entropy(ctx, "layout")
+    viol += bv
+    evals += bcalls
+    dist["extreme_fill_calls"] = bcalls
     for line, exp, got in zip(lines, expect, core.run_model(lines)):
         if got != exp:
             diffs.append({"request": line, "reference": exp, "model": got})
